@@ -209,7 +209,9 @@ class Pretty:
             max_length=self.max_length,
             max_string=self.max_string,
         )
-        text_width = max(cell_len(line) for line in pretty_str.splitlines())
+        text_width = (
+            max(cell_len(line) for line in pretty_str.splitlines()) if pretty_str else 0
+        )
         return Measurement(text_width, text_width)
 
 
